@@ -3,7 +3,7 @@
 # seeded with the structured corpus. usage: tools/fuzz.sh <PROP> <tier> <seed> [seconds]
 # exit 0 no crash, 1 crash artifact produced, 2 inconclusive
 prop=$1; tier=$2; seed=$3; secs=${4:-120}
-cd /verif/harness || exit 2
+ROOT="$(cd "$(dirname "$0")/.." && pwd)"; cd "$ROOT/harness" || exit 2
 export CARGO_NET_OFFLINE=true
 ./target/debug/mlv corpus-dump fuzz/corpus/decode --seed "$seed" --out target/corpus-dump.json || exit 2
 cd fuzz || exit 2
